@@ -168,7 +168,8 @@ def rule_char_counting(r, p):
                 ok, why = counted_in_chars(p, f, v, adt, fld, pred, cnt, store=s)
                 r.require(ok, "update:%s.%s/%s" % (adt.rsplit("::", 1)[-1], fld, f.path.rsplit("::", 1)[-1] + ("#%d" % [x[1] for x in ws if x[0] is f].index(b))), fn=f, site=s.get("at"), detail=why,
                           fail_detail="the width counter %s.%s is updated with %s, which is not a count of characters" % (adt.rsplit("::", 1)[-1], fld, show(v, 5)))
-        r.floor("counter-updates", n, 4)
+            r.require(bool(ws), "counter-is-updated:%s.%s" % (adt.rsplit("::", 1)[-1], fld), detail="update sites of the width counter: %d" % len(ws))
+        r.floor("width-counters", len(cf), 3)
         # the cut index of MaxWidthWriter comes from the filtered enumerate (a lead byte position) or buf.len()
         mw = [f for f in p.fns.values() if f.d.get("impl_self_adt") == MAXW and f.path.endswith("::write") and f.d.get("impl_trait") == "std::io::Write"]
         if len(mw) != 1:
